@@ -13,7 +13,7 @@ RULE = ('lines generated from the grammar SSH-<d>.<d+>-<token>[ <comments>] (tok
         'Banner.parse / Software.parse, end-to-end cases deliver 0..6 header lines then the banner from a scripted peer (CRLF or LF; in one write, cut in two inside the banner or a header line, or in 1-7 byte segments) and read the text and JSON report; '
         'a case is non-trivial when at least one generated line was parsed and every part (protocol, software, comments, flag, round trip) was compared; '
         'distinct = distinct batch / peer specifications')
-REQUIRED = {'e2e_via_targets_file': 3, 'e2e_client_audits': 3, 'lines_parsed': 5000, 'injected_lines': 500, 'product_lines': 300, 'e2e_runs': 20, 'e2e_injected_at_end_of_line': 8, 'e2e_protocol_1_99': 6, 'e2e_blank_first_line': 6, 'e2e_long_header_lines': 8, 'e2e_with_header': 5, 'e2e_cut_inside_a_line': 10, 'e2e_header_then_cut_banner': 4}
+REQUIRED = {'e2e_text_only_on_later_connections': 3, 'e2e_via_targets_file': 3, 'e2e_client_audits': 3, 'lines_parsed': 5000, 'injected_lines': 500, 'product_lines': 300, 'e2e_runs': 20, 'e2e_injected_at_end_of_line': 8, 'e2e_protocol_1_99': 6, 'e2e_blank_first_line': 6, 'e2e_long_header_lines': 8, 'e2e_with_header': 5, 'e2e_cut_inside_a_line': 10, 'e2e_header_then_cut_banner': 4}
 ASSUMPTIONS = ['comments are compared after collapsing whitespace runs to one space (the normalisation the tool documents)',
                'each character outside 32..126 is expected to be shown as one replacement character; a multi-byte UTF-8 sequence or an undecodable byte counts as one character',
                'end-to-end delivery is one TCP segment smaller than the tool\'s 2048-byte read (segmentation is C09\'s subject)']
@@ -94,6 +94,9 @@ def cases(tier, seed):
     # the same peers named in a targets file (one entry) and audited as clients (-c): header text and banner are reported the same way in every kind of run
     for i in range(10 if tier == 'quick' else 100):
         cs.append({'kind': 'e2e', 'seed': rng.randrange(1 << 30), 'json': i % 5 == 4, 'headers': 1 + i % 3, 'eol': '\n' if i % 4 == 3 else '\r\n', 'inject': i % 3 == 2, 'product': i % 2 == 0, 'cut': 'none', 'via': ['file', 'client'][i % 2]})
+    # a peer that sends no text before its identification string on the audited connection, but does on the later (probe) connections, e.g. a throttling notice: the report is about the first connection
+    for i in range(4 if tier == 'quick' else 30):
+        cs.append({'kind': 'e2e', 'seed': rng.randrange(1 << 30), 'json': False, 'headers': 0, 'eol': '\r\n', 'inject': False, 'product': i % 2 == 0, 'cut': 'none', 'late_header': ['Exceeded MaxStartups', 'NOTICE: connection rate limited', 'SSH-1.99-decoy banner-like notice'][i % 3]})
     # servers announcing SSH-1.99 (both protocols): the same decomposition, sanitising and flagging
     for i in range(8 if tier == 'quick' else 60):
         cs.append({'kind': 'e2e', 'seed': rng.randrange(1 << 30), 'json': i % 4 == 3, 'headers': i % 3, 'eol': '\r\n', 'inject': i % 2 == 0, 'product': i % 4 < 2, 'cut': 'none', 'proto199': True})
@@ -163,7 +166,7 @@ def run_e2e(c):
         pre.insert(1, '')   # a blank line carries no text and is not reported
     if c.get('blank_first'):
         pre.insert(0, '')   # ... also when it is the very first thing the peer sends (with LF endings: the first byte of the connection is a newline)
-    probes = c['seed'] % 2 == 0   # half of the peers answer host-key and group-exchange probes, so the tool reconnects several times and sees the header lines again
+    probes = c['seed'] % 2 == 0 or bool(c.get('late_header'))   # half of the peers answer host-key and group-exchange probes, so the tool reconnects several times and sees the header lines again
     script = {'banner': line, 'pre': pre, 'eol': c['eol'], 'kex': audit.sym_kex(['curve25519-sha256'] + (['diffie-hellman-group-exchange-sha256'] if probes else []), ['ssh-ed25519', 'ssh-rsa'], ['aes128-ctr'], ['hmac-sha2-256']),
               'hostkeys': {'ssh-ed25519': {'type': 'ed25519'}, 'ssh-rsa': {'type': 'rsa', 'bits': 3072}} if probes else {}, 'gex': {'sizes': [3072], 'style': 'strict'} if probes else None}
     # how the identification block reaches the tool: in one write, or cut into two writes (with a pause) inside the banner line / inside a header line, or in tiny segments - a line only counts once it is complete
@@ -175,6 +178,8 @@ def run_e2e(c):
         script['faults'] = [{'conn': '*', 'at': 'banner', 'op': 'split', 'offset': rng.randint(1, head_len - 1), 'pause': 0.25}]
     elif cut == 'bytewise':
         script['faults'] = [{'conn': 0, 'at': 'banner', 'op': 'segment', 'n': rng.choice([1, 3, 7]), 'delay': 0.004}]
+    if c.get('late_header'):
+        script['faults'] = [{'conn': {'ge': 1}, 'at': 'banner', 'op': 'prefix', 'hex': (wire.nb(c['late_header']) + b'\r\n').hex()}]
     if c.get('long_header'):
         pre.append('x' * c['long_header'] + ('SSH-2.0-OpenSSH_5.3' if c['banner_like_tail'] else ' y'))
         script['pre'] = pre
@@ -231,7 +236,7 @@ def run_e2e(c):
             if swl is None or (exp['product'] + ' ' + exp['version']) not in swl:  # a vendor name may precede the product
                 viol.append(_v('C16/e2e-software:' + exp['product'], 'software line does not carry product and version', line=line, got=swl))
     return viol, {'e2e_runs': 1, 'e2e_injected_at_end_of_line': 1 if c.get('inject') == 'end' else 0, 'e2e_protocol_1_99': 1 if c.get('proto199') else 0, 'e2e_blank_first_line': 1 if c.get('blank_first') else 0, 'e2e_long_header_lines': 1 if c.get('long_header') else 0, 'e2e_with_header': 1 if pre else 0, 'e2e_cut_inside_a_line': 1 if p.count('fault') else 0, 'e2e_header_then_cut_banner': 1 if pre and cut == 'in-banner' and p.count('fault') else 0,
-                  'e2e_via_targets_file': 1 if c.get('via') == 'file' else 0, 'e2e_client_audits': 1 if c.get('via') == 'client' else 0}
+                  'e2e_text_only_on_later_connections': 1 if c.get('late_header') and p.count('fault') else 0, 'e2e_via_targets_file': 1 if c.get('via') == 'file' else 0, 'e2e_client_audits': 1 if c.get('via') == 'client' else 0}
 
 
 def run_case(c):
